@@ -9,6 +9,8 @@ for f in os.listdir(seed):
     p = os.path.join(seed, f)
     if os.path.isfile(p):
         shutil.copy(p, os.path.join(dst, f))
+    elif os.path.isdir(p) and f != "confirm":
+        shutil.copytree(p, os.path.join(dst, f), dirs_exist_ok=True)
 conf = os.path.join(seed, "confirm")
 ran = {}
 for f in ("tests_with.txt", "demo_with.txt", "demo_without.txt"):
